@@ -822,6 +822,7 @@ def gen_callop(rng, tk, c, seqs, kind=None, force_set=False, raise_=None):
         op["steps"] = gen_steps(rng, tk, force_set)
         op["raise"] = (rng.random() < 0.4) if raise_ is None else raise_
     if op["op"] == "batch":
+        op["ser"] = rng.choice(["serpent", "json"])    # marshal cannot carry the wrapped exception of a failing member
         op["oneway"] = rng.random() < 0.25
         op["members"] = []
         for _ in range(rng.choice([1, 2, 3])):
@@ -946,13 +947,13 @@ def targeted():
             for mode in ("A", "U"):
                 base = [{"op": "connect", "c": 0, "how": "ok"},
                         {"op": "call", "c": 0, "seq": 1, "tok": 1, "ser": "serpent", "corr": True, "steps": [["snap", 2], ["set", mode, [7]]], "raise": True}]
-                out.append({"kind": "server", "server": server, "pool": pool, "dmn": dmn, "ops": base + [
-                    {"op": "call", "c": 0, "seq": 2, "tok": 3, "ser": "json", "corr": False, "steps": [["set", "U", [8]], ["snap", 4]], "raise": False}]})
-                out.append({"kind": "server", "server": server, "pool": pool, "dmn": dmn, "ops": base + [{"op": "ping", "c": 0, "seq": 2}]})
                 for how in ("ok", "refused", "garbage"):
                     out.append({"kind": "server", "server": server, "pool": pool, "dmn": dmn, "ops": base + [
                         {"op": "close", "c": 0}, {"op": "connect", "c": 1, "how": how},
                         {"op": "call", "c": 1, "seq": 1, "tok": 5, "ser": "marshal", "corr": True, "steps": [["snap", 6]], "raise": False}]})
+                out.append({"kind": "server", "server": server, "pool": pool, "dmn": dmn, "ops": base + [
+                    {"op": "call", "c": 0, "seq": 2, "tok": 3, "ser": "json", "corr": False, "steps": [["set", "U", [8]], ["snap", 4]], "raise": False}]})
+                out.append({"kind": "server", "server": server, "pool": pool, "dmn": dmn, "ops": base + [{"op": "ping", "c": 0, "seq": 2}]})
                 out.append({"kind": "server", "server": server, "pool": pool, "dmn": dmn, "ops": base + [
                     {"op": "batch", "c": 0, "seq": 2, "tok": 9, "ser": "serpent", "corr": False, "oneway": True,
                      "members": [{"steps": [["set", "U", [11]]], "raise": False, "tok": 10}]},
@@ -1045,15 +1046,26 @@ def run(ctx, model_ok=True):
 
 
 def search(ctx, broken):
+    """a tie broke: look for a concrete failing input with the oracle alone (time-boxed)"""
     res = vlib.Result()
-    cases = [b["case"] for b in broken if b.get("case")] + targeted() + gen_cases(ctx)
+    budget = 75 if ctx.quick else 400
+    t0 = time.time()
+    first = [b["case"] for b in broken if b.get("case")] + targeted()
     try:
-        for case in cases:
+        k = 0
+        while True:
+            if k < len(first):
+                case = first[k]
+            else:
+                if time.time() - t0 > budget or k > 15000:
+                    break
+                case = gen_client_case(ctx.rng) if k % 6 == 5 else gen_server_case(ctx.rng)
+            k += 1
             obs = run_impl(case)
             res.seen(case)
             for sig, what in oracle(case, obs):
                 res.violations.append({"signature": sig, "what": what, "case": case})
-            if len(res.violations) >= 40:
+            if len(res.violations) >= 25:
                 break
     finally:
         teardown_config()
